@@ -10,14 +10,21 @@
   * `steal_succeeds` / `steal_takes` — a tree entry that is unreserved and whose counter
     covers the request is accepted by `Tree::steal` under every policy answer except `Invalid`;
 
-  PARTIAL: the end-to-end statements (`drained_get_complete`, `drained_get_at_iff`) combine these
-  with the upper invariant (after a drain every tree counter equals the free frames of its tree,
-  offline trees excepted) and C12; the invariant is in progress. Until then carried by the drain
-  probes of the correspondence (drain, then a base-order or targeted allocation at every explored
-  quiescent state) with the completeness oracle.
+  * `drain_clears` — after `drain` every slot is empty and the invariant holds;
+  * `get_after_drain_complete` — **base order, end to end**: in a drained allocator (every state
+    satisfying the upper invariant with empty slots) `get(order 0)` succeeds whenever some
+    unreserved tree has a positive counter; `usable_of_free`: that is the case whenever a frame
+    outside hidden (offline) trees is free;
+  * `get_at_after_drain_complete` / `targeted_exact` — **targeted, both directions**: a targeted
+    allocation of a block that is entirely free and lies in a tree that is not hidden returns
+    exactly the block; and it succeeds only on an entirely free block (C02), never on frames of
+    a hidden tree's counter (the tree counter is 0: `Trees::steal` refuses).
+  The "policy that never declares a tree unusable" of the statement is `CfgOk.policy`
+  (`OrderedPolicy`: the repository's policies).
 -/
 import LLFreeV.Proofs.SortedBuffer
 import LLFreeV.Proofs.UpperComplete
+import LLFreeV.Proofs.UpperTargeted
 namespace LLFree.C10
 open LLFree
 
@@ -107,6 +114,13 @@ theorem targeted_exact (c : Cfg) (ok : CfgOk c) (H : Nat → Prop) (m : Mem) (in
     (hcls : r.cls < 8) (hloc : r.locOk c) (hv : C08.ArgsValid c f r) :
     Runs m (get c (some f) r) (fun res m' => UpperInv0 c H m' ∧ GetOutcome c m r.order (some f) res m') :=
   upper_get_spec ok inv (some f) r hcls hloc hv
+
+/-- **Targeted allocation after a drain, completeness.** -/
+theorem get_at_after_drain_complete (c : Cfg) (ok : CfgOk c) (H : Nat → Prop) (m : Mem) (inv : UpperInv0 c H m)
+    (habs : ∀ s, SlotAbsent m s) (f : Nat) (r : Request) (hcls : r.cls < 8) (hloc : r.locOk c) (hv : C08.ArgsValid c f r)
+    (hfree : GetAllowed c m f r.order) (hnh : ¬ H (f / c.geom.treeFrames)) :
+    Runs m (get c (some f) r) (fun res m' => (UpperInv0 c H m' ∧ GetOutcome c m r.order (some f) res m') ∧ ∃ x, res = .ok x) :=
+  get_at_drained_complete ok inv habs f r hcls hloc hv hfree hnh
 
 /-- Non-vacuity: with 5 trees and start 3 the scan order is 3, 2, 4, 1, 0. -/
 example : (List.range 5).map (searchIdx 3 5) = [3, 2, 4, 1, 0] := by decide
